@@ -58,6 +58,11 @@ OBSERVATIONS on the code as it is (mirrored here; each replayed on the real code
   * the only raise sites outside decrypt_packet's try/except need a `ShortQuicPacket` typed VERSION_NEG / INITIAL,
     which `extract_quic_packet` never builds (`session_total`, `session_total_counterexample`).
 
+REPAIRED (45c871e): the largest packet number of a space used to be stored inside `get_full_packet_number`, i.e. BEFORE the
+  AEAD check; one unauthenticated packet with a far-away number made every later packet of that direction and space
+  fail (`Legacy.*`, `Props.C02Session.legacy_pn_poisoned`). Now `set_largest_packet_number` runs after
+  `decryptor.decrypt` succeeded (`Props.C02Session.failed_packet_leaves_pn_table`).
+
 NOT modelled: `alpn`, `greasy_bit`, frame/packet buffers that are never read, `build_output`, `reset()` (never
 called), `matches_session_*` (main-loop model), the payload of the VERSION_NEG pseudo frame (`Pkt` has no field
 for it; it is stored, never read here), the value `None` inside a CID set (a long Initial with `scid is None` adds
